@@ -24,7 +24,7 @@ import (
 // ---------------------------------------------------------------------------------------------
 
 // Tables in prefix order (the bplus back-end orders tables by Table.Prefix()).
-var c14Tables = []storage.Table{storage.HyperTable, storage.HyperCacheTable, storage.HistoryTable, storage.FSMStateTable}
+var c14Tables = []storage.Table{storage.HyperTable, storage.HyperCacheTable, storage.HistoryTable, storage.FSMStateTable, storage.DefaultTable}
 
 type kvModel struct {
 	t      map[storage.Table]map[string][]byte
@@ -178,6 +178,8 @@ func genLayoutKey(r *lib.Rand, t storage.Table) []byte {
 		return genHistoryKey(r)
 	case storage.HyperTable, storage.HyperCacheTable:
 		return genHyperKey(r)
+	case storage.DefaultTable: // "mandatory but not used": no layout of its own
+		return genAlphaKey(r)
 	default:
 		return append([]byte{}, storage.FSMStateTableKey...)
 	}
@@ -866,10 +868,10 @@ func (s *seqRun) doReopen() bool {
 func runSeqCase(cp casePlan, dir string, oplog *os.File) *caseResult {
 	s := &seqRun{cp: cp, be: strings.TrimPrefix(cp.Kind, "seq:"), dir: dir, m: newKVModel(), r: lib.NewRand(cp.Seed),
 		res: newResult(cp.ID), oplog: oplog}
-	// which tables this case writes to (queries go to all four): every non-empty subset appears
-	mask := s.r.Range(1, 15)
+	// which tables this case writes to (queries go to all five): every non-empty subset appears
+	mask := s.r.Range(1, 1<<uint(len(c14Tables))-1)
 	if s.r.Intn(3) == 0 {
-		mask = 15
+		mask = 1<<uint(len(c14Tables)) - 1
 	}
 	var an []string
 	for i, t := range c14Tables {
